@@ -265,3 +265,45 @@ Definition c16_nfkc_pred (args : list val) : bool :=
   | [o] => match o with WErr ValueError => true | _ => false end
   | _ => false
   end.
+
+(** ---------------- C04 ---------------- *)
+(** args: a canonical URL string, the observation of URL(s): the string form is s *)
+Definition c04_url_pred (args : list val) : bool :=
+  match args with
+  | [WStr s; o] => match nthv i_str o with WStr s' => str_eqb s s' | _ => false end
+  | _ => false
+  end.
+(** a scheme that takes an authority, written without one (http:/p prints as http:///p) *)
+Definition kf_f14b (args : list val) : bool :=
+  match args with
+  | [_; o] =>
+      match nthv i_scheme o, nthv i_netloc o with
+      | WStr sc, WStr [] => negb (str_eqb sc []) && str_in sc USES_AUTHORITY
+      | _, _ => false
+      end
+  | _ => false
+  end.
+(** an empty path under an authority is printed as "/" when a query or fragment follows
+    (http://h?q -> http://h/?q) *)
+Definition insert_slash (s : str) : str :=
+  let '(a, b) := span_until (fun c => (c =? 63) || (c =? 35)) s in a ++ [47] ++ b.
+Definition kf_f27 (args : list val) : bool :=
+  match args with
+  | [WStr s; o] => match nthv i_str o with WStr s' => str_eqb (insert_slash s) s' | _ => false end
+  | _ => false
+  end.
+
+(** ---------------- C19, allocation failure ---------------- *)
+(** args: expected output, list of outcomes of the same call with the n-th allocation
+    failing (n = 0, 1, ...), followed by one undisturbed outcome: each is MemoryError or
+    exactly the expected string; the undisturbed one is the expected string *)
+Definition c19_oom_pred (args : list val) : bool :=
+  match args with
+  | [WStr expected; WList outcomes] =>
+      forallb (fun o => match o with
+                        | WErr MemoryError => true
+                        | WStr s => str_eqb s expected
+                        | _ => false end) outcomes
+      && match last_opt outcomes with Some (WStr s) => str_eqb s expected | _ => false end
+  | _ => false
+  end.
